@@ -17,6 +17,8 @@
      16 the first state a key is given after a restart is not the fold of exactly the records before the restored positions
      17 a restart did not resume from the latest completed checkpoint
      18 a published checkpoint does not hold exactly the positions its runners acknowledged (one per split)
+     19 the summary entry of a key (rewritten on every application) is not the number of records in the state given:
+        a stale version of a rewritten entry was read
    Codes 1..9: against the model / the observation itself:
       1 the final state differs from the failure-free run of the protocol model `Sys` over the same input
       9 the run did not complete (no final state observed for some key): no verdict
@@ -26,11 +28,13 @@ From RV Require Import Model.Sys.
 Import ListNotations.
 Open Scope N_scope.
 
-Record inv := Inv { i_gen : N; i_key : N; i_rec : N; i_probe : bool; i_given : list (N * N * N) }. (* id, count, ord *)
+Record inv := Inv { i_gen : N; i_key : N; i_rec : N; i_probe : bool; i_given : list (N * N * N); (* id, count, ord *)
+                    i_sum : N }.  (* the key's summary entry as given: rewritten on every application = number of applications *)
 
 Inductive tev :=
 | TPubStart (id : N) (pos : list N) (nstates : list N)   (* job is about to write checkpoint id: position / #states per split *)
 | TPubDone (id : N)
+| TDeploy (gen : N)                                      (* the job starts deploying generation gen: it has chosen its checkpoint *)
 | TRestore (gen : N) (has : bool) (pos : list N).        (* generation gen starts from these positions *)
 
 Inductive case :=
@@ -111,6 +115,7 @@ Definition check_inv (splits : list (list (N * N))) (i : inv) : list N :=
           (if increasing_opt (map (ord_of g) (firstn (N.to_nat n) l)) None then [] else [15])
       end) splits ++
   (if i_probe i then [] else if memN (i_rec i) mine then [] else [14]) ++
+  (if i_sum i =? N.of_nat (length g) then [] else [19]) ++
   (if list_eqb (sort (map snd g)) (map N.of_nat (seq 0 (length g))) then [] else [15]).
 
 (* ---------- continuity inside a generation (13) and first state after a restore (16) *)
@@ -148,7 +153,17 @@ Fixpoint check_flow (splits : list (list (N * N))) (tl : list tev) (m : list (N 
   end.
 
 (* ---------- restores resume from the latest completed checkpoint (17), published checkpoints well-formed (18) *)
-Fixpoint check_timeline (started : list (N * list N)) (done : option N) (tl : list tev) (acked : list (N * list (N * N))) : list N :=
+(* The job chooses the checkpoint of generation g when it starts deploying (TDeploy g): the restore must be the latest
+   checkpoint completed by THEN (a publication that completes while the assembly is being deployed may or may not be
+   used, but see code 16: state and positions must come from the same one). *)
+Fixpoint done_at (m : list (N * option N)) (g : N) : option (option N) :=
+  match m with
+  | [] => None
+  | (g', d) :: m' => if g =? g' then Some d else done_at m' g
+  end.
+
+Fixpoint check_timeline (started : list (N * list N)) (done : option N) (dep : list (N * option N))
+                        (tl : list tev) (acked : list (N * list (N * N))) : list N :=
   match tl with
   | [] => []
   | TPubStart id pos nst :: tl' =>
@@ -160,14 +175,16 @@ Fixpoint check_timeline (started : list (N * list N)) (done : option N) (tl : li
                     (combine (map N.of_nat (seq 0 (length pos))) pos)
         | None => false
         end in
-      (if ok_states && ok_acked then [] else [18]) ++ check_timeline ((id, pos) :: started) done tl' acked
+      (if ok_states && ok_acked then [] else [18]) ++ check_timeline ((id, pos) :: started) done dep tl' acked
   | TPubDone id :: tl' =>
-      check_timeline started (match done with Some d => Some (N.max d id) | None => Some id end) tl' acked
-  | TRestore _ has pos :: tl' =>
-      let candidates := filter (fun s => match done with Some d => d <=? fst s | None => true end) started in
+      check_timeline started (match done with Some d => Some (N.max d id) | None => Some id end) dep tl' acked
+  | TDeploy g :: tl' => check_timeline started done ((g, done) :: dep) tl' acked
+  | TRestore g has pos :: tl' =>
+      let done_g := match done_at dep g with Some d => d | None => done end in
+      let candidates := filter (fun s => match done_g with Some d => d <=? fst s | None => true end) started in
       let ok := existsb (fun s => list_eqb (snd s) pos) candidates
-                || (match done with None => negb has && forallb (N.eqb 0) pos | Some _ => false end) in
-      (if ok then [] else [17]) ++ check_timeline started done tl' acked
+                || (match done_g with None => negb has && forallb (N.eqb 0) pos | Some _ => false end) in
+      (if ok then [] else [17]) ++ check_timeline started done dep tl' acked
   end.
 
 (* ---------- final state: every key has a probe in the last generation; against the model's failure-free run (1) *)
@@ -194,7 +211,7 @@ Definition check_final (splits : list (list (N * N))) (is : list inv) : list N :
    the first and Operator.HandleDeploy opens a second DKV over the first; records are then applied out of split order,
    lost or applied against a stale cut. In exactly that input class (survivor = true) the exactly-once codes are
    reported as the single code 101; everywhere else, and for codes 17/18 in every class, nothing is masked. *)
-Definition eo_codes : list N := [1; 9; 10; 11; 12; 13; 14; 15; 16].
+Definition eo_codes : list N := [1; 9; 10; 11; 12; 13; 14; 15; 16; 19].
 
 Definition check_case (c : case) : list N :=
   match c with
@@ -203,7 +220,7 @@ Definition check_case (c : case) : list N :=
         (if completed then [] else [9]) ++
         flat_map (check_inv splits) is ++
         check_flow splits tl [] is ++
-        check_timeline [] None tl acked ++
+        check_timeline [] None [] tl acked ++
         check_final splits is) in
       if survivor then
         (if existsb (fun c => memN c eo_codes) codes then [101] else []) ++ filter (fun c => negb (memN c eo_codes)) codes
